@@ -102,7 +102,7 @@ Proof.
   set (x2 := updm (add_lock x k r) k (fun m => m <| m_locked := add32 (m_locked m) 1 |>)) in *.
   rewrite aget_store_updl, N.eqb_refl in H.
   destruct (aget (store (fst (add_expried x2 k r))) r) as [l3|] eqn:E3; [|discriminate]. simpl in H. inv H.
-  destruct (add_expried_rec x2 k r l3 E3) as (l2 & E2 & L2 & X2).
+  destruct (add_expried_rec x2 k r l3 E3) as (l2 & E2 & L2 & X2 & _).
   unfold x2 in E2. rewrite store_updm in E2.
   destruct (NF_add_lock_after x k r) as [A _]. destruct (A r l2) as (l1 & E1 & (_ & N1 & _)); [discriminate|exact E2|].
   rewrite store_setl, aget_aset_same in E1. inv E1.
